@@ -9,6 +9,7 @@ from .. import calllog, interpose, simexec
 from ..model import compare_nested, plain, short
 from ..world import Violation, HarnessError, SimCrash
 from . import cropgen as G
+from . import farmers as F
 
 
 def xyz_site(exc):
@@ -23,7 +24,8 @@ def xyz_site(exc):
 class CropMachine:
     NAME = "crp"
 
-    def __init__(self, ctx, kinds=None, max_n=40, farmer=None, max_batches=None):
+    def __init__(self, ctx, kinds=None, max_n=40, farmer_roles=None, max_batches=None,
+                 world_cfg=None, allow_cases=True, ext_choice=True):
         import xyzpy  # noqa - after interpose.install()
 
         self.ctx = ctx
@@ -35,13 +37,14 @@ class CropMachine:
             "split_writes": t.flag(1, 3, "split"),
             "permute_listing": t.flag(1, 2, "permute"),
         }
+        cfg.update(world_cfg or {})
         self.w = ctx.world(cfg)
         self.root = self.w.root
         self.location = os.path.join(self.root, ".xyz-" + self.NAME)
         simexec.bind(t, ctx.stats, default={
             "boundary": t.pick(["process", "thread"], "ex-boundary")})
         sc = G.Scenario()
-        sc.sweep = G.gen_sweep(t, max_n=max_n, kinds=kinds)
+        sc.sweep = G.gen_sweep(t, max_n=max_n, kinds=kinds, allow_cases=allow_cases)
         sc.kind = sc.sweep.kind
         sc.N = sc.sweep.n()
         sc.batching = G.gen_batching(t, sc.N)
@@ -59,12 +62,24 @@ class CropMachine:
             sc.shuffle["site"] = "ctor"  # sow_cases has no shuffle argument
         sc.spell = t.pick(["dict", "pairs"], "spell")
         sc.case_spell = t.pick(["dicts", "tuples"], "case-spell")
+        # farmer-backed crop?
+        role = t.pick(farmer_roles, "farmer-role") if farmer_roles else None
+        self.fspec = None
+        if role is not None:
+            self.fspec = F.gen_farmer(t, role, sc.sweep, self.root, ext_choice=ext_choice)
+            # Runner.Crop / Harvester.Crop take no shuffle argument
+            if sc.shuffle["site"] == "ctor":
+                sc.shuffle = {"value": sc.shuffle["value"] if sc.api == "sow_combos" else False,
+                              "site": "sow"}
+        sc.farmer = self.fspec.describe() if self.fspec else None
         self.sc = sc
         self.sort_combos = sc.api == "sow_combos"
         self.argnames = sc.sweep.case_args + [a for a, _ in sc.sweep.combos] \
             + list(sc.sweep.constants)
         self.fn = calllog.make_fn(sc.kind, self.argnames)
+        self.fn_args = tuple(sc.sweep.case_args + [a for a, _ in sc.sweep.combos])
         self.long_crop = None
+        self.farmer_obj = None
         self.nactors = 0
         self.batches = None  # {id: [kwargs]} read from disk after sow
         ctx.t("scenario", sc.describe())
@@ -81,6 +96,8 @@ class CropMachine:
             try:
                 val = f()
             except Exception as e:
+                # see World._ActorCtx.__exit__: never keep the unwound frames' locals
+                traceback.clear_frames(e.__traceback__)
                 exc = e
         if a.dead:
             raise HarnessError("unexpected kill in fault-free call")
@@ -107,8 +124,21 @@ class CropMachine:
     def new_sow_crop(self):
         import xyzpy
 
+        if self.fspec is not None:
+            # a new session: the user rebuilds the farmer and asks it for a crop
+            self.farmer_obj = self.fspec.build(self.fn)
+            kw = self.ctor_kwargs()
+            kw.pop("shuffle", None)
+            return self.farmer_obj.Crop(name=self.NAME, parent_dir=self.root, **kw)
         return xyzpy.Crop(fn=self.fn, name=self.NAME, parent_dir=self.root,
                           **self.ctor_kwargs())
+
+    def sow_constants(self):
+        c = dict(self.sc.sweep.constants)
+        if self.fspec is not None:
+            for k in list(self.fspec.runner_constants) + list(self.fspec.resources):
+                c.pop(k, None)
+        return c
 
     def load_crop(self):
         import xyzpy
@@ -130,7 +160,7 @@ class CropMachine:
             kw[sc.batching["how"]] = sc.batching["value"]
         combos = dict(sw.combos) if sc.spell == "dict" else tuple(
             (a, tuple(v)) for a, v in sw.combos)
-        constants = dict(sw.constants) or None
+        constants = self.sow_constants() or None
         if sc.api == "sow_combos":
             if sc.shuffle["site"] == "sow":
                 kw["shuffle"] = sc.shuffle["value"]
@@ -156,6 +186,36 @@ class CropMachine:
         self.B = len(self.batches)
         if self.B == 0:
             raise Violation("sow-wrote-no-batches", "no batch files after sow")
+
+    def sow_samples(self, n):
+        """Sampler crops: sow n random samples drawn (np.random, seeded from the
+        tape) from the sweep's grid values."""
+        import numpy as np
+
+        seed = self.tape.choose(1000, "np-seed")
+        crop = self.new_sow_crop()
+        self.long_crop = self.sow_crop = crop
+        combos = {a: list(v) for a, v in self.sc.sweep.combos}
+        self.ctx.t("sow_samples", n, "np-seed", seed)
+
+        def f():
+            np.random.seed(seed)
+            crop.sow_samples(n, combos=combos, constants=self.sow_constants() or None,
+                             verbosity=0)
+
+        self.call("sower", f, oracle="sow-raised")
+        self.batches = G.read_batch_files(self.location)
+        self.B = len(self.batches)
+        self.sample_kwargs = [kw for b in sorted(self.batches) for kw in self.batches[b]]
+        if len(self.sample_kwargs) != n:
+            raise Violation("sow_samples-count", "sowed {} cases for n={}".format(
+                len(self.sample_kwargs), n))
+        allowed = {a: set(plain(x) for x in v) for a, v in self.sc.sweep.combos}
+        for kw in self.sample_kwargs:
+            for a, vals in allowed.items():
+                if plain(kw[a]) not in vals:
+                    raise Violation("sample-outside-choices",
+                                    "{}={!r} not among {}".format(a, kw[a], sorted(vals, key=repr)))
 
     # --------------------------------------------------------- grow ops
     def gen_workers(self, label):
@@ -509,7 +569,7 @@ def outputs_of(kind, value):
     raise HarnessError(kind)
 
 
-def check_dataset(ds, sweep, sort_combos, finished_locs, kind, what):
+def check_dataset(ds, sweep, sort_combos, finished_locs, kind, what, only_requested=False):
     """Every grid point of ds: exact where finished, missing elsewhere."""
     import itertools
     import numpy as np
@@ -536,7 +596,7 @@ def check_dataset(ds, sweep, sort_combos, finished_locs, kind, what):
                     raise Violation(what + "/wrong-value",
                                     "at {} variable {} expected {} got {}".format(
                                         locd, var, short(ev, 60), short(gv, 60)))
-        else:
+        elif not (only_requested and loc not in exp):
             for var in point.data_vars:
                 gv = point[var].values
                 gv = gv.item() if gv.ndim == 0 else gv
@@ -696,3 +756,48 @@ def run_c09(ctx):
         raise Violation("final-reap-differs/" + bad[0], bad[1])
     ctx.key = repr((m.sc.N, sizes, m.sc.shuffle["value"], kind, m.sc.api,
                     [x for x in ctx.trace if x.startswith(("partial", "grow"))]))
+
+
+def check_sample_rows(df, kwargs_list, kind, hidden, what, finished_idx=None, approx=False):
+    """df rows == one row per sown sample (in any order): arguments (without
+    resources) and exactly that sample's outputs; unfinished rows missing.
+    approx: the table went through a csv file (pandas' default float parser is
+    not round-trip exact), compare floats to 1e-12 relative."""
+    import math
+    from ..model import same as _same, is_missing
+
+    def same(x, y):
+        if approx and isinstance(x, (int, float)) and isinstance(y, (int, float)) \
+                and not isinstance(x, bool) and not isinstance(y, bool):
+            return math.isclose(float(x), float(y), rel_tol=1e-12, abs_tol=1e-12)
+        return _same(x, y)
+
+    outs_names = list(outputs_of(kind, calllog.value(kind, kwargs_list[0])).keys()) \
+        if kwargs_list else []
+    rows = [dict(r) for _, r in df.iterrows()]
+    if len(rows) != len(kwargs_list):
+        raise Violation(what + "/row-count", "{} rows for {} samples".format(
+            len(rows), len(kwargs_list)))
+    used = [False] * len(rows)
+    for idx, kw in enumerate(kwargs_list):
+        args = {k: plain(v) for k, v in kw.items() if k not in hidden}
+        fin = finished_idx is None or idx in finished_idx
+        outs = outputs_of(kind, calllog.value(kind, kw))
+        hit = None
+        for j, r in enumerate(rows):
+            if used[j]:
+                continue
+            if any(k not in r or not same(plain(r[k]), v) for k, v in args.items()):
+                continue
+            if fin and all(same(r[o], outs[o]) for o in outs):
+                hit = j
+                break
+            if not fin and all(is_missing(r[o]) for o in outs):
+                hit = j
+                break
+        if hit is None:
+            raise Violation(what + "/row-missing-or-wrong",
+                            "no row pairs arguments {} with {}".format(
+                                args, "outputs " + short(outs, 80) if fin else "missing outputs"))
+        used[hit] = True
+
